@@ -85,7 +85,27 @@ CLAIM = {
             '(reports_depend_on_logical_values_only: the model has no dtype/layout), R3/R4/R7 '
             '(refused_calls_leave_no_trace, reports_depend_on_current_inputs_only), R5 (zero-denominator theorems, '
             'pathloss_stream_power at g=0), R6 (sinr_power_scale_invariant, sinr_scale_invariant); that the '
-            'IMPLEMENTATION has these properties is correspondence/oracle evidence only. The IA solver has no external-power '
+            'IMPLEMENTATION has these properties is correspondence/oracle evidence only. R8 (every parameter '
+            'positional and by keyword in any order, pe omitted / explicit default, set_pathloss() / None, pe=0 '
+            'external class vs plain class, covariance plus noise vs without, solver via (F,P) / full_F / P setter / '
+            'scalar P / W / W_H / keyword constructor, calc_sum_capacity vs calc_shannon_sum_capacity(calc_SINR()), '
+            'solver.calc_Q vs channel.calc_Q): theorem equivalent_forms_agree + sum_capacity_def for the algebra, '
+            'correspondence (keyword calls) and the argument-forms oracle for the code. R9 (receiver / transmitter '
+            'index of calc_Q, calc_JP_Q, get_Hkl, get_Hk, get_Hk_without_ext_int, solver.calc_Q, '
+            'calc_remaining_interference_percentage as int, np.int8..64, np.uint8..64, np.intp, 0-d arrays, run-time '
+            'built ints above 256; an index beyond the last user is IndexError; K / antenna / stream counts in every '
+            'integer type): theorem index_argument_read_by_value, driver op q, index oracle; negative indices are not '
+            'documented and not covered. R10 (per-user matrices of different element types in one list, P as mixed '
+            'list): reports_depend_on_logical_values_only + correspondence/oracle. R11 (23 asking calls incl. repr, '
+            'properties and every calc_*/get_* inside sessions, all observables compared before/after): theorem '
+            'queries_leave_no_trace + session correspondence/oracle. R12 does not apply: users, streams and sources '
+            'are positional by documentation and no dict/set/named container is part of the API (independent setters '
+            'are applied in shuffled order inside sessions). R13 (deep copy and pickle round trip of solver+channel, '
+            'changed on its own, evaluated after the parents moved on; derived solver bound to the derived channel): '
+            'reports_depend_on_current_inputs_only + session correspondence/oracle. R14 (258..300 users, 257..300 '
+            'streams of one user, 257..300 external sources; 2^16+1 users would need a 4e9-entry channel matrix and '
+            'is not run): theorems hold for every K; one case of each per run. calc_shannon_sum_capacity for '
+            'arguments of any shape / container: theorem shannon_sum_any_shape, driver op cap2. The IA solver has no external-power '
             'parameter: it is compared at the channel object\'s default pe = 1. Fixed in the worktree: the solver '
             'ignored external interference; integer channel + integer pe + noise raised a casting error. A '
             'MultiUserChannelMatrixExtInt with zero external sources is outside the generators (its Nr/Nt slices '
@@ -945,6 +965,106 @@ def o_capacity(case):
     return None
 
 
+def o_forms(case):
+    """R8: argument forms and equivalent entry points.  Positional / keyword (in any order) / default vs the
+    default given explicitly; the external-interference class at pe = 0 against the plain class on the users'
+    columns; covariance plus noise against covariance without noise + noise * I; the solver configured through
+    (F, P) against full_F = F sqrt(P), through W against W_H, through the P setter (scalar) against the power
+    vector; calc_sum_capacity against calc_shannon_sum_capacity(calc_SINR()); solver.calc_Q(k) against
+    channel.calc_Q(k, full_F); the constructor argument by keyword"""
+    mu, ia, misc = _impl()
+    tag = 'extint' if case['ext'] else 'plain'
+    K = case['K']
+    ext = case['ext']
+
+    def same(a, b, what):
+        d = same_reports(a, b)
+        return None if d is None else ('R8:%s:%s' % (what, tag), d)
+
+    def rep(s, q):
+        s = ('ok', [[float(x) for x in r] for r in s[1]]) if s[0] == 'ok' else s
+        return s, q
+    with np.errstate(all='ignore'):
+        ch = build_channel(case)
+        _, F, FJ, U = presented(case)
+        Fs, FJs, Us = seq(case, F), seq(case, FJ), seq(case, U)
+        pe = pe_args(case)
+        kw = {'pe': pe[0]} if pe else {}
+        for jp, (sm, qm, A) in enumerate(((ch.calc_SINR, ch.calc_Q, Fs), (ch.calc_JP_SINR, ch.calc_JP_Q, FJs))):
+            pos = rep(call_guard(lambda: sm(A, Us, *pe)), [qm(k, A, *pe) for k in range(K)])
+            key = rep(call_guard(lambda: sm(U=Us, F=A, **kw)), [qm(F_all_users=A, k=k, **kw) for k in range(K)])
+            r = same(pos, key, ('jp' if jp else 'ic') + ':positional-vs-keyword')
+            if r:
+                return r
+            if ext:
+                v = pe_value(case)
+                if v == 1.0:      # the default, left out / positional / by keyword
+                    for form, a, k2 in (('omitted', (), {}), ('positional', (1.0,), {}), ('keyword', (), {'pe': 1.0})):
+                        alt = rep(call_guard(lambda: sm(A, Us, *a, **k2)), [qm(k, A, *a, **k2) for k in range(K)])
+                        r = same(pos, alt, ('jp' if jp else 'ic') + ':default-pe-' + form)
+                        if r:
+                            return r
+        if ext:
+            a = ch.calc_cov_matrix_extint_plus_noise(*pe)
+            b = ch.calc_cov_matrix_extint_plus_noise(**kw)
+            c0 = ch.calc_cov_matrix_extint_without_noise(*pe)
+            nv = noise_value(case) or 0.0
+            for k in range(K):
+                if not mat_close(a[k], b[k], 1e-12) and np.abs(a[k]).max() > 0:
+                    return ('R8:extint-covariance:positional-vs-keyword:' + tag, 'receiver %d' % k)
+                if not mat_close(a[k], c0[k] + nv * np.eye(case['Nr'][k]), 1e-12) and np.abs(a[k]).max() > 0:
+                    return ('R8:extint-covariance:plus-noise-vs-without-noise:' + tag, 'receiver %d' % k)
+            # pe = 0: the class with external interference must agree with the plain class on the users' part
+            c0case = dict(case, pe=0.0, petype='float')
+            plain = dict(case, ext=False, NtE=[], pe=None, ple=None)
+            big = dec(case['big'])
+            plain['big'] = enc(np.asarray(big)[:, :sum(case['Nt'])])
+            for jp in (False, True):
+                r = same(run_channel(c0case, jp), run_channel(plain, jp), ('jp' if jp else 'ic') + ':pe=0-vs-plain-class')
+                if r:
+                    return r
+        if case.get('solver'):
+            def solver(how):
+                c2 = build_channel(case)
+                sol = ia.IASolverBaseClass(multiUserChannel=c2) if how == 'ctor-keyword' else ia.IASolverBaseClass(c2)
+                pv = p_values(case)
+                Fa = arrays(case)[1]
+                if how == 'full_F' and pv is not None:
+                    sol.set_precoders(full_F=obj([np.asarray(Fa[k], dtype=complex) * math.sqrt(pv[k]) for k in range(K)]))
+                elif how == 'P-setter-after' and pv is not None:
+                    sol.set_precoders(F=seq(case, F))
+                    sol.P = np.array(pv)
+                elif how == 'P-scalar' and pv is not None and len(set(pv)) == 1:
+                    sol.P = pv[0]
+                    sol.set_precoders(F=seq(case, F))
+                else:
+                    sync_solver(sol, case, filters=False)
+                if how == 'W':
+                    sol.set_receive_filters(W=seq(case, U))
+                else:
+                    sol.set_receive_filters(W_H=seq(case, [u.conj().T for u in U]))
+                return sol, c2
+            base_sol, base_ch = solver('W_H')
+            base = eval_solver(base_sol, base_ch, case)
+            if isinstance(base, dict):
+                for how in ('full_F', 'P-setter-after', 'P-scalar', 'W', 'ctor-keyword'):
+                    sol2, ch2 = solver(how)
+                    o = eval_solver(sol2, ch2, case)
+                    if not isinstance(o, dict):
+                        continue
+                    r = same((base['sinr'], base['Q']), (o['sinr'], o['Q']), 'solver:' + how)
+                    if r:
+                        return r
+                if base['sinr'][0] == 'ok':
+                    cap2 = float(misc.calc_shannon_sum_capacity(base_sol.calc_SINR()))
+                    if not core.close(base['cap'], cap2, rtol=1e-12):
+                        return ('R8:calc_sum_capacity-vs-calc_shannon_sum_capacity:' + tag, '%.17g vs %.17g' % (base['cap'], cap2))
+                for k in range(K):
+                    if not mat_close(base['Q'][k], base_ch.calc_Q(k, base_sol.full_F), 1e-12) and np.abs(base['Q'][k]).max() > 0:
+                        return ('R8:solver.calc_Q-vs-channel.calc_Q:' + tag, 'receiver %d' % k)
+    return None
+
+
 INDEX_METHODS = ['calc_Q', 'calc_JP_Q', 'get_Hkl', 'get_Hk', 'get_Hk_without_ext_int', 'solver.calc_Q',
                  'solver.calc_remaining_interference_percentage']
 
@@ -1124,6 +1244,48 @@ def rejected_call(name, ch, sol, c, ext):
     return None
 
 
+QUERIES = ['calc_SINR', 'calc_JP_SINR', 'calc_Q', 'calc_JP_Q', 'get_Hkl', 'get_Hk', 'H', 'big_H', 'repr', 'W',
+           'solver.calc_SINR', 'solver.calc_SINR_in_dB', 'solver.calc_sum_capacity', 'solver.calc_Q', 'solver.full_W_H',
+           'solver.full_W', 'solver.get_cost', 'solver.calc_remaining_interference_percentage']
+QUERIES_EXT = ['calc_cov_matrix_extint_plus_noise', 'calc_cov_matrix_extint_without_noise', 'get_Hk_without_ext_int',
+               'H_no_ext_int', 'big_H_no_ext_int']
+
+
+def run_query(name, ch, sol, c, ext):
+    """ONE call of the public API that only asks for something"""
+    _, F, FJ, U = presented(c)
+    pe = pe_args(c)
+    k = c['K'] - 1
+    if name == 'calc_SINR':
+        return ch.calc_SINR(obj(F), obj(U), *pe)
+    if name == 'calc_JP_SINR':
+        return ch.calc_JP_SINR(obj(FJ), obj(U), *pe)
+    if name == 'calc_Q':
+        return ch.calc_Q(k, obj(F), *pe)
+    if name == 'calc_JP_Q':
+        return ch.calc_JP_Q(k, obj(FJ), *pe)
+    if name == 'get_Hkl':
+        return ch.get_Hkl(k, 0)
+    if name == 'get_Hk':
+        return ch.get_Hk(k)
+    if name in ('H', 'big_H', 'W', 'H_no_ext_int', 'big_H_no_ext_int'):
+        return getattr(ch, name)
+    if name == 'repr':
+        return (repr(ch), str(ch), repr(sol))
+    if name in ('calc_cov_matrix_extint_plus_noise', 'calc_cov_matrix_extint_without_noise'):
+        return getattr(ch, name)(*pe)
+    if name == 'get_Hk_without_ext_int':
+        return ch.get_Hk_without_ext_int(k)
+    if name.startswith('solver.'):
+        m = name[7:]
+        if m in ('full_W_H', 'full_W'):
+            return getattr(sol, m)
+        if m in ('calc_Q', 'calc_remaining_interference_percentage'):
+            return getattr(sol, m)(k)
+        return getattr(sol, m)()
+    raise KeyError(name)
+
+
 REJECTS_CHANNEL = ['init:shape', 'init:K', 'randomize:K', 'pathloss:shape', 'noise:negative', 'calc:bad-F']
 REJECTS_EXT = ['init:shape-fewer-sources', 'pathloss:missing-ext']
 REJECTS_SOLVER = ['precoders:none', 'filters:none', 'filters:both', 'P:negative', 'P:zero', 'P:length',
@@ -1149,6 +1311,7 @@ def _run_session(sess):
     F2 = U2 = None
     sol2_layout = None
     held = []                   # (label, array as returned earlier, copy taken then) — R3: outputs stay put
+    child = None
     for st in sess['steps']:
         c = dict(st['case'])
         ops = st['ops']
@@ -1168,17 +1331,20 @@ def _run_session(sess):
         else:
             c['big'] = cur_big
         cur_big = c['big']
-        if ops['pl'] == 'set':
-            if ext:
-                ch.set_pathloss(*pl_args(c))
-            else:
-                ch.set_pathloss(pl_args(c)[0])
-        elif ops['pl'] == 'none':
-            ch.set_pathloss(None)
-        if ops['noise'] == 'set':
-            ch.noise_var = noise_arg(c)
-        if ops.get('post'):
-            ch.set_post_filter(seq(c, presented(c)[3]))
+        for which in ops.get('setter_order') or ['pl', 'noise', 'post']:     # independent setters, any order
+            if which == 'pl':
+                if ops['pl'] == 'set':
+                    if ext:
+                        ch.set_pathloss(*pl_args(c))
+                    else:
+                        ch.set_pathloss(pl_args(c)[0])
+                elif ops['pl'] == 'none':
+                    ch.set_pathloss(None)
+            elif which == 'noise':
+                if ops['noise'] == 'set':
+                    ch.noise_var = noise_arg(c)
+            elif ops.get('post'):
+                ch.set_post_filter(seq(c, presented(c)[3]))
         if sol is None:
             sol = ia.IASolverBaseClass(ch)
         if ops['sol'] != 'sync' and not sol_ok:
@@ -1210,6 +1376,16 @@ def _run_session(sess):
             U2 = [enc(np.asarray(dec(u), dtype=complex) * 1j) for u in c['U']]
             sync_solver(sol2, second_case(c, F2, U2))
             sol2_layout = lay
+        # R11: calls that only ASK — none of them may move any observable of the channel object or of either solver
+        rec['queried'] = []
+        for name in ops.get('query', []):
+            before = observe(ch, [sol, sol2], ext)
+            try:
+                run_query(name, ch, sol, c, ext)
+            except (np.linalg.LinAlgError, ZeroDivisionError):
+                pass
+            changed = same_obs(before, observe(ch, [sol, sol2], ext))
+            rec['queried'].append({'call': name, 'changed': changed})
         # R4: calls the API must refuse — each must raise and leave EVERY observable as it was
         rec['rejected'] = []
         for name in ops.get('reject', []):
@@ -1253,6 +1429,26 @@ def _run_session(sess):
                 held.append(('sol.Q[%d]@step%d' % (k, len(out)), q, np.array(q)))
         held = held[-40:]
         out.append(rec)
+        # R13: an object DERIVED from the live ones (deep copy / pickle round trip of solver + channel), changed
+        # on its own right away, evaluated only after the parents have gone through the rest of their life
+        if ops.get('derive') and child is None and sol_ok:
+            import copy
+            import pickle
+            pair = copy.deepcopy((ch, sol)) if ops['derive'] == 'deepcopy' else pickle.loads(pickle.dumps((ch, sol)))
+            cc = dict(c)
+            if ops.get('derive_change', 'noise') == 'noise':
+                cc = dict(c, noise=7.0, ntype='float')
+                pair[0].noise_var = 7.0
+            child = (pair, cc, ops['derive'], len(out) - 1)
+    if child is not None:
+        (cch, csol), cc, how, at = child
+        crec = {'case': cc, 'how': how, 'at': at, 'ic': eval_channel(cch, cc, False), 'jp': eval_channel(cch, cc, True),
+                'same_channel': csol._multiUserChannel is cch}
+        try:
+            crec['sol'] = eval_solver(csol, cch, cc, synced=False)
+        except np.linalg.LinAlgError:
+            crec['sol'] = None
+        out[-1]['child'] = crec
     return out
 
 
@@ -1293,6 +1489,25 @@ def o_session(sess):
             d = same_reports(rec[what], run_channel(c, what == 'jp'))
             if d is not None:
                 return ('%s:differs-from-fresh-object%s' % (name, where), 'step %d: %s' % (i, d))
+        for qy in rec.get('queried', []):
+            if qy['changed']:
+                return ('R11:query-changed-the-object:%s:%s' % (qy['call'], tag),
+                        'step %d: %s differs after the call' % (i, qy['changed']))
+        if rec.get('child'):
+            cr = rec['child']
+            cw = ':%s:%s' % (cr['how'], tag)
+            if not cr['same_channel']:
+                return ('R13:derived-solver-not-bound-to-derived-channel' + cw, 'derived at step %d' % cr['at'])
+            for what, name in (('ic', 'calc_SINR'), ('jp', 'calc_JP_SINR')):
+                r = judge_channel(cr['case'], what == 'jp', *cr[what])
+                if r is not None:
+                    return ('R13:derived-object:%s:%s%s' % (name, r[0].split(':')[0], cw),
+                            'derived at step %d, evaluated after the parents moved on: %s' % (cr['at'], r[1]))
+            if isinstance(cr.get('sol'), dict):
+                r = judge_solver(cr['case'], cr['sol'])
+                if r is not None:
+                    return ('R13:derived-object:IASolver:%s%s' % (r[0].split(':')[0], cw),
+                            'derived at step %d: %s' % (cr['at'], r[1]))
         if rec.get('moved'):
             return ('R3:earlier-output-changed:%s' % tag, 'step %d: %s' % (i, rec['moved'][:3]))
         for what in ('ic', 'jp'):
@@ -1466,6 +1681,7 @@ ORACLES = {
     'session': o_session,
     'immutability': o_immutable,
     'index-arguments': o_index,
+    'argument-forms': o_forms,
     'calc_SINR': o_calc_SINR,
     'calc_JP_SINR': o_calc_JP_SINR,
     'calc_SINR.rescaled-filter': o_scale,
@@ -1801,7 +2017,7 @@ class Gen:
         """more than 256 single-antenna users: receiver indices above 256 (Python ints that are not the
         interpreter's cached small-int objects, numpy integers that need 16 bits)"""
         rng = self.rng
-        K = rng.choice([257, 258, 259, 300])
+        K = rng.choice([258, 259, 300])
         c = self.case(kind='gauss', ext=rng.chance(0.5) if ext is None else ext, K=K,
                       dims=([1] * K, [1] * K, [1] * K), NtE=[1], retype=False)
         c['pl'] = c['ple'] = None
@@ -1812,6 +2028,12 @@ class Gen:
         c['idx'] = 'bigint'
         c['solver'] = False
         c['rclass'] = 'R1'
+        # the COUNT of users above 256 as well, in every type that holds it, with the antenna numbers given
+        # as one integer for all users
+        self.present(c)
+        c['present']['dims'] = rng.choice(['scalar', 'np.scalar'])
+        c['present']['K'] = rng.choice(['int', 'np.uint16', 'np.int64', '0d:int32', 'np.int16'])
+        c['present']['idx'] = 'bigint'
         return c
 
     def session(self, n_steps=None, ext=None):
@@ -1897,6 +2119,13 @@ class Gen:
         pool = REJECTS_CHANNEL + REJECTS_SOLVER + (REJECTS_EXT if ext else [])
         for st in steps:
             st['ops']['reject'] = [rng.choice(pool) for _ in range(rng.choice([0, 0, 1, 1, 2, 3]))]
+            qpool = QUERIES + (QUERIES_EXT if ext else [])
+            st['ops']['query'] = [rng.choice(qpool) for _ in range(rng.choice([0, 1, 2, 3]))]
+            so = ['pl', 'noise', 'post']
+            rng.shuffle(so)
+            st['ops']['setter_order'] = so
+            st['ops']['derive'] = rng.choice([None, None, 'deepcopy', 'pickle'])
+            st['ops']['derive_change'] = rng.choice(['noise', 'nothing'])
             st['ops']['repeat'] = rng.chance(0.25)
             st['ops']['sol2'] = rng.chance(0.15)
         return {'ext': bool(ext), 'kind': kind, 'steps': steps}
@@ -2147,6 +2376,21 @@ def corr_sessions(ctx, sessions):
                 ctx.branch('corr:R4')
             ctx.branch('corr:R7')
             ctx.branch('corr:R3')
+            for qy in rec.get('queried', []):
+                ctx.branch('R11:' + qy['call'])
+                ctx.branch('corr:R11')
+                if qy['changed']:
+                    ctx.corr('session:R11:query-leaves-object-unchanged', c, 'unchanged', '%s changed %s' % (qy['call'], qy['changed']))
+            if rec.get('child'):
+                cr = rec['child']
+                ctx.branch('R13:' + cr['how'])
+                ctx.branch('corr:R13')
+                for what in ('ic', 'jp'):
+                    jobs.append((what, (si, i, 'child'), cr['case'], cr[what][0], cr[what][1]))
+                    lines.append(chan_line(cr['case'], what == 'jp'))
+                if isinstance(cr.get('sol'), dict):
+                    jobs.append(('solver', (si, i, 'child'), cr['case'], cr['sol'], None))
+                    lines.append(solver_line(cr['case'], cr['sol']['full_W_H']))
             if isinstance(rec.get('sol2'), dict):
                 ctx.branch('R7:second-solver')
                 jobs.append(('solver', (si, i, 2), rec['case2'], rec['sol2'], None))
@@ -2184,7 +2428,7 @@ def corr_index(ctx, cases):
                 ch = build_channel(case)
                 _, F, FJ, _ = presented(case)
                 pe = pe_args(case)
-                for k in (case.get('ks') or list(range(K))) + [K]:
+                for k in (case['ks'][-2:] if case.get('ks') else list(range(K))) + [K]:
                     for jp in (False, True):
                         fits = [t for t in IDX_TYPES if idx_fits(k, t)]
                         t = fits[n % len(fits)]
@@ -2197,6 +2441,9 @@ def corr_index(ctx, cases):
                         jobs.append((case, k, jp, t, got))
                         lines.append('q' + chan_line(case, jp)[4:] + ' k=%d' % k)
                         ctx.branch('index:' + t)
+                        if case.get('r14'):
+                            ctx.branch('R14:' + case['r14'])
+                            ctx.branch('corr:R14')
                         ctx.branch('index:beyond-last-user' if k == K else 'index:k>256' if k > 256 else 'index:k<=256')
         except Exception as e:      # the oracle reports it with the input; here the tie is broken
             ctx.corr('index-arguments:' + variant_tag(case), {'K': K}, 'a result', 'exception ' + type(e).__name__)
@@ -2363,7 +2610,7 @@ def gen_sessions(ctx, n):
 def oracles(ctx, cases, sessions=(), bigk=()):
     for i, sess in enumerate(sessions):
         run_oracle(ctx, 'session', sess, key=('session', i, sess['ext'], sess['kind'], len(sess['steps'])))
-        for r in ('R3', 'R4', 'R7'):
+        for r in ('R3', 'R4', 'R7', 'R11', 'R13'):
             ctx.branch('oracle:' + r)
     for i, case in enumerate(cases):
         key = case_key(case, i)
@@ -2371,11 +2618,14 @@ def oracles(ctx, cases, sessions=(), bigk=()):
             ctx.branch('oracle:' + case['rclass'])
         run_oracle(ctx, 'calc_SINR', case, key=key)
         run_oracle(ctx, 'calc_JP_SINR', case, key=key)
-        if arr_dtype(case) == 'complex128':
+        if arr_dtype(case) == 'complex128' and not case.get('r14'):
             run_oracle(ctx, 'calc_SINR.rescaled-filter', case, key=key)
         if case.get('solver'):
             run_oracle(ctx, 'IASolver.calc_SINR', case, key=key)
-        if i % 3 == 0 or case.get('rclass'):
+        if i % 4 == 1 and not case.get('r14'):
+            run_oracle(ctx, 'argument-forms', case, key=key)
+            ctx.branch('oracle:R8')
+        if (i % 3 == 0 or case.get('rclass')) and not case.get('r14'):
             run_oracle(ctx, 'immutability', case, key=key)
             ctx.branch('oracle:R3')
     for c in gen_cap_cases(ctx.rng.fork('cap'), 3 * len(CAP_SHAPES)):
@@ -2385,6 +2635,7 @@ def oracles(ctx, cases, sessions=(), bigk=()):
         ctx.branch('oracle:index-arguments')
         if case.get('ks'):
             ctx.branch('oracle:index>256')
+            ctx.branch('oracle:R14')
 
 
 def check(ctx):
@@ -2427,16 +2678,21 @@ def check(ctx):
                             ['R4:' + r for r in REJECTS_CHANNEL + REJECTS_EXT + REJECTS_SOLVER] + \
                             ['R1:idx-' + t for t in IDX_TYPES] + ['index:' + t for t in IDX_TYPES] + \
                             ['index:k>256', 'index:k<=256', 'index:beyond-last-user', 'oracle:index-arguments',
-                             'oracle:index>256'] + ['capacity:' + sh for sh in CAP_SHAPES] + ['noise-type:' + t for t in NUMTYPES] + \
+                             'oracle:index>256'] + ['capacity:' + sh for sh in CAP_SHAPES] + \
+                            ['R8:call-keyword', 'R8:call-positional', 'oracle:R8', 'R10:mixed-element-types',
+                             'corr:R10', 'oracle:R10', 'corr:R11', 'oracle:R11', 'corr:R13', 'oracle:R13',
+                             'R13:deepcopy', 'R13:pickle', 'R14:many-users', 'R14:many-streams',
+                             'R14:many-ext-sources', 'corr:R14', 'oracle:R14'] + \
+                            ['R11:' + q for q in QUERIES + QUERIES_EXT] + ['noise-type:' + t for t in NUMTYPES] + \
                             ['pe-type:' + t for t in NUMTYPES] + \
                             ['P-type:' + t for t in ('float', 'int', 'np.int32', 'np.float32', 'list', 'scalar:int',
                                                      'scalar:float', 'scalar:np.float32', 'scalar:np.int64')]
-    cases = corpus_cases() + gen_cases(ctx, 400 if quick else 4000) + gen_rcases(ctx, 40 if quick else 600)
+    cases = corpus_cases() + gen_cases(ctx, 300 if quick else 3000) + gen_rcases(ctx, 40 if quick else 400)
     gb = Gen(ctx.rng.fork('bigk'), ctx.tier)
-    bigk = [gb.bigk_case(ext=bool(i % 2)) for i in range(2 if quick else 6)]
+    bigk = [gb.bigk_case(ext=bool((i + ctx.seed) % 2)) for i in range(1 if quick else 6)]
     if not quick:
         cases += layout_sweep(ctx)
-    sessions = corpus_sessions() + gen_sessions(ctx, 160 if quick else 1500)
+    sessions = corpus_sessions() + gen_sessions(ctx, 130 if quick else 1000)
     try:
         correspondence(ctx, cases)
         corr_sessions(ctx, sessions)
